@@ -29,7 +29,13 @@ pub type Shared<T> = Arc<T>;
 // opaque payload types: nothing in this unit looks inside them
 pub struct Resources { opaque: u8 }
 pub struct Content { opaque: u8 }
-pub struct Primitive { opaque: u8 }
+// reduced twin of primitive.rs `enum Primitive`: the variant that names an indirect object, everything else opaque
+pub struct OtherPrimitive { opaque: u8 }
+pub enum Primitive { Reference(PlainRef), Other(OtherPrimitive) }
+impl Primitive {
+    #[verifier::external_body]
+    pub fn get_debug_name(&self) -> (r: &'static str) { unimplemented!() }
+}
 pub struct Annot { opaque: u8 }
 pub struct Dictionary { opaque: u8 }
 pub struct Lazy<T> { opaque: u8, _marker: PhantomData<T> }
@@ -46,6 +52,10 @@ pub struct Storage { pub w: Ghost<World> }
 //@@ struct PageTree
 //@@ struct Page
 
+impl<T> Ref<T> {
+//@@ Ref::new
+//@@ Ref::get_inner
+}
 impl<T> Clone for Ref<T> { fn clone(&self) -> (r: Ref<T>) ensures r == *self { *self } }
 impl<T> Copy for Ref<T> {}
 
@@ -67,10 +77,20 @@ pub trait Resolve {
             res is Ok <==> self.world().dom().contains(r.inner),
             res matches Ok(n) ==> n.inner == r.inner && *n.data == self.world()[r.inner];
 }
-// abstract callee of PagesRc/PageRc::from_primitive (Object for RcRef<T>): no contract needed
+// callee of PagesRc/PageRc::from_primitive: `impl<T: Object> Object for RcRef<T>` of object/mod.rs, extracted and
+// instantiated at T = PagesNode (the env `Resolve::get` is); what object a `Primitive` denotes:
+pub open spec fn denotes(w: World, p: Primitive, r: Result<RcRef<PagesNode>>) -> bool {
+    match p {
+        Primitive::Reference(rf) => (r is Ok <==> w.dom().contains(rf)) && (r matches Ok(n) ==> n.inner == rf && *n.data == w[rf]),
+        _ => r is Err,
+    }
+}
+// `p` is a reference to a stored page (`leaf`) / a stored intermediate node (`!leaf`)
+pub open spec fn names_stored(w: World, p: Primitive, leaf: bool) -> bool {
+    p matches Primitive::Reference(rf) && w.dom().contains(rf) && (w[rf] is Leaf <==> leaf)
+}
 impl RcRef<PagesNode> {
-    #[verifier::external_body]
-    fn from_primitive(p: Primitive, resolve: &impl Resolve) -> (r: Result<RcRef<PagesNode>>) { unimplemented!() }
+//@@ RcRef::from_primitive
 }
 
 // ------------------------------------------------------------------ the two wrappers and their type invariant
